@@ -13,7 +13,7 @@ Proof.
     apply Forall_cons; [ exact (tie_jrot3c_p00 p q r x y br bi cr ci) | ]. apply Forall_cons; [ exact (tie_jrot3c_p010 p q r x y br bi cr ci) | ].
     apply Forall_cons; [ exact (tie_jrot3c_p0110 p q r x y br bi cr ci) | ]. apply Forall_cons; [ exact (tie_jrot3c_p0111 p q r x y br bi cr ci) | ].
     apply Forall_cons; [ exact (tie_jrot3c_p1 p q r x y br bi cr ci) | apply Forall_nil ].
-  - autounfold with gen; ops_R. set (sq := 1 / 2 * (p - q)). fold (pnorm sq x (- y)).
+  - autounfold with gen; ops_R. set (sq := 1 / 2 * (p - q)). rewrite ?(hyp_pnorm sq x (- y)).
     destruct (Req_dec (pnorm sq x (- y)) 0) as [Zp|Np]; [ do 4 apply Exists_cons_tl; apply Exists_cons_hd; exact Zp | ].
     destruct (Rlt_dec sq 0) as [L|G]; [ | apply Exists_cons_hd; cbn [fst]; tauto ].
     destruct (Req_dec x 0) as [Zx|Nx]; [ | apply Exists_cons_tl; apply Exists_cons_hd; cbn [fst]; tauto ].
